@@ -178,7 +178,7 @@ Qed.
 
 (* ---------------------------------------------------------------- order does not matter to the census ---- *)
 From Coq Require Import Permutation.
-From ASTS Require Import CounterProofs.
+From ASTS Require Import CounterProofs ConvergedStatus.
 
 Lemma sumf_perm f a b : Permutation a b -> sumf f a = sumf f b.
 Proof. induction 1; cbn [sumf]; lia. Qed.
@@ -499,6 +499,44 @@ Proof.
   exists (S k). split; [lia|]. intros m Hm. destruct m as [|m]; [lia|].
   destruct (K2 m ltac:(lia)) as (_ & _ & P1). destruct (K2 (S m) ltac:(lia)) as (C2 & _ & P2).
   split; [exact C2 | apply quiet_at; assumption].
+Qed.
+
+(* ... and the STORED status of those worlds says replicas = readyReplicas = spec.replicas (guard: no int32 wrap) *)
+Lemma inconsistent_false_fields s st : inconsistent_status s st = false ->
+  st_replicas st = st_replicas (s_status s) /\ st_ready st = st_ready (s_status s).
+Proof.
+  unfold inconsistent_status. intros H.
+  repeat (apply orb_false_iff in H; destruct H as [H ?]).
+  repeat match goal with Hx : negb (_ =? _) = false |- _ => apply negb_false_iff in Hx; apply Z.eqb_eq in Hx end.
+  split; assumption.
+Qed.
+
+Lemma complete_counters_same s st : st_replicas (complete_rolling_update s st) = st_replicas st /\ st_ready (complete_rolling_update s st) = st_ready st.
+Proof.
+  unfold complete_rolling_update.
+  destruct (String.eqb (s_strategy s) "RollingUpdate" && (st_updated st =? st_replicas st) && (st_ready st =? st_replicas st)); split; reflexivity.
+Qed.
+
+Theorem full_model_stored_status :
+  0 <= r -> r + Z.of_nat (length (get_slots (s_slots s0))) <= max_i32 ->
+  exists k, Z.of_nat k <= mu s0 upd cnt slots (w_pods (Wd O)) + 1
+    /\ forall m, (k <= m)%nat ->
+         exists s, w_set (Wd m) = Some s /\ st_replicas (s_status s) = r /\ st_ready (s_status s) = r.
+Proof.
+  intros Hr0 Hb. destruct full_model_converges_closed as (k & K1 & K2).
+  exists (S k). split; [lia|]. intros m Hm. destruct m as [|m]; [lia|].
+  destruct (K2 m ltac:(lia)) as (_ & _ & P1). destruct (K2 (S m) ltac:(lia)) as (C2 & _ & P2).
+  destruct (round_facts (S m)) as (st1 & rv1 & c1 & po1 & Hs1 & Hg1 & Hl1 & Had1 & Hpo1 & Hac1 & Wk1 & Nk1 & Ck1 & _). cbv zeta in *.
+  set (s1 := set_status s0 st1 rv1) in *.
+  rewrite (P2 (rinfo_of c1)) in Hac1.
+  pose proof (consistent_next m P1 st1 rv1 c1 po1 Hs1 Hg1 Hpo1 Hac1) as Hcons. fold s1 in Hcons.
+  destruct (inconsistent_false_fields _ _ Hcons) as [E1 E2].
+  destruct (complete_counters_same s1 (po_status po1)) as [F1 F2]. rewrite F1 in E1. rewrite F2 in E2.
+  assert (C2' : pods_converged s1 upd cnt slots (w_pods (Wd (S m)))).
+  { destruct C2 as [A B]. split; [exact A | exact B]. }
+  destruct (converged_status s1 (rinfo_of c1) upd coll r cnt slots (w_pods (Wd (S m))) po1 Hrep Hr0 Hb Hext Nk1
+              (wf_dist _ _ _ _ Wk1) (fun p Hp => proj1 (wf_ord _ _ _ _ Wk1 p Hp)) C2' Hpo1) as (_ & R1 & R2).
+  exists s1. split; [exact Hs1|]. split; congruence.
 Qed.
 
 End Closed.
